@@ -33,6 +33,9 @@ type C17Entry struct {
 type C17Run struct {
 	TrustAll bool     `json:"trust_all"`
 	Answers  []string `json:"answers"` // lines typed by the user, in order
+	// CancelAtMs >= 0: the user interrupts the client (Ctrl-C) this long after it
+	// started, possibly while unknown hosts are collected for the next prompt
+	CancelAtMs int `json:"cancel_at_ms"`
 }
 
 type C17Scenario struct {
@@ -84,7 +87,10 @@ func c17Gen(r *Rand, tier string, i int) Scenario {
 	sc.FinalNL = r.Bool(0.8)
 	nr := PickOf(r, 1, 1, 2, 3)
 	for k := 0; k < nr; k++ {
-		run := C17Run{TrustAll: r.Bool(0.2)}
+		run := C17Run{TrustAll: r.Bool(0.2), CancelAtMs: -1}
+		if r.Bool(0.15) {
+			run.CancelAtMs = PickOf(r, 0, 5, 50, 500, 1500, 1990, 2010, 2600, 4500)
+		}
 		na := r.Range(1, 3)
 		for a := 0; a < na; a++ {
 			run.Answers = append(run.Answers, PickOf(r, "y", "yes", "n", "no", "a", "all", "d", "details", "", "maybe", "Y", "yes please"))
@@ -92,6 +98,17 @@ func c17Gen(r *Rand, tier string, i int) Scenario {
 		sc.Runs = append(sc.Runs, run)
 	}
 	sc.Net = verifsimnet.Profile{LatencyMs: PickOf(r, 0, 1, 5)}
+	if sc.Servers > 1 && r.Bool(0.3) {
+		// some servers are far away: their host keys arrive after the first batch
+		// of unknown hosts was prompted (batches are collected for 2 s), so one
+		// run prompts and records twice
+		sc.Net.ConnLatency = map[string]int{}
+		for i := 0; i < sc.Servers; i++ {
+			if r.Bool(0.4) {
+				sc.Net.ConnLatency[c17Host(i)] = PickOf(r, 700, 1100, 1500, 2600)
+			}
+		}
+	}
 	return sc
 }
 
@@ -289,6 +306,15 @@ func c17Run(t *testing.T, s Scenario, src verifsim.DecisionSource, keep bool) *R
 				defer close(pdone)
 				w.RunClient(proc, false)
 			})
+			if run.CancelAtMs >= 0 {
+				w.Sim.GoOn(pnode, "harness/ctrl-c", func() {
+					w.Sleep(time.Duration(run.CancelAtMs) * time.Millisecond)
+					if proc.Cancel != nil && !proc.Exited {
+						w.Sim.Fault("client.interrupted")
+						proc.Cancel()
+					}
+				})
+			}
 			verifsim.Yield("harness/waitproc")
 			<-pdone
 			w.Sim.Kill(pnode)
@@ -433,9 +459,9 @@ func c17Shape(s Scenario) string {
 		ks = append(ks, fmt.Sprintf("%s%d%v", e.Kind, e.Server, e.Wrong))
 	}
 	for _, r := range sc.Runs {
-		rs = append(rs, fmt.Sprintf("%v:%s", r.TrustAll, strings.Join(r.Answers, "/")))
+		rs = append(rs, fmt.Sprintf("%v:%s:c%d", r.TrustAll, strings.Join(r.Answers, "/"), r.CancelAtMs))
 	}
-	return fmt.Sprintf("s%d/%s/nl%v/%s", sc.Servers, strings.Join(ks, ","), sc.FinalNL, strings.Join(rs, ";"))
+	return fmt.Sprintf("s%d/%s/nl%v/%s/slow%v", sc.Servers, strings.Join(ks, ","), sc.FinalNL, strings.Join(rs, ";"), sc.Net.ConnLatency)
 }
 
 func c17Sample(s Scenario) any {
